@@ -274,10 +274,22 @@ type Desc struct {
 	Digest    string `json:"digest"`
 	Size      int64  `json:"size"`
 	MediaType string `json:"mt"`
+	// Extra: what a descriptor read back from the registry carries beyond the three fields above
+	// (a registry describes what it stores; whatever else the pusher's descriptor held is the pusher's)
+	Extra string `json:"extra,omitempty"`
 }
 
 func liteDesc(d ociregistry.Descriptor) Desc {
-	return Desc{string(d.Digest), d.Size, d.MediaType}
+	return Desc{string(d.Digest), d.Size, d.MediaType, ""}
+}
+
+// readDesc is liteDesc for descriptors read back from a registry.
+func readDesc(d ociregistry.Descriptor) Desc {
+	x := liteDesc(d)
+	if len(d.URLs) > 0 || len(d.Annotations) > 0 || len(d.Data) > 0 || d.Platform != nil || d.ArtifactType != "" {
+		x.Extra = fmt.Sprintf("urls=%v annotations=%v data=%dB platform=%v artifactType=%q", d.URLs, d.Annotations, len(d.Data), d.Platform != nil, d.ArtifactType)
+	}
+	return x
 }
 
 // Out is the observable outcome of one operation.
@@ -426,6 +438,9 @@ func (e *Env) Exec(op Op) (o Out) {
 		case 5:
 			d.MediaType = MTBlobAlt // truthful push under another blob media type
 		}
+		// the pusher's descriptor carries notes of its own
+		d.Annotations = map[string]string{"verif.pusher": "not the registry's business"}
+		d.URLs = []string{"https://elsewhere.test/fetch/it/there"}
 		got, err := reg.PushBlob(ctx, e.repo(op.R), d, bytes.NewReader(data))
 		o.setErr(err)
 		o.Desc = liteDesc(got)
@@ -436,7 +451,7 @@ func (e *Env) Exec(op Op) (o Out) {
 	case "resolveBlob":
 		d, err := reg.ResolveBlob(ctx, e.repo(op.R), u.BlobDigest(op.B))
 		o.setErr(err)
-		o.Desc = liteDesc(d)
+		o.Desc = readDesc(d)
 	case "deleteBlob":
 		o.setErr(reg.DeleteBlob(ctx, e.repo(op.R), u.BlobDigest(op.B)))
 	case "mount":
